@@ -223,10 +223,10 @@ theorem mergeStep_wf (es : List (Iv Int)) (hp : Pos es) (hd : Disj es) (x : Iv I
 
 /-! ## (1) one insertion in `merge` mode -/
 
-/-- **label of a merge**: inserting a stripped-label entry `x` that collides with entries of a well-formed tier
+/-- `insert_merge_label` for an entry whose label is already stripped: inserting a stripped-label entry `x` that collides with entries of a well-formed tier
 replaces them by ONE entry whose extent is the hull and whose label is the `-`-join of the labels of the colliding
 entries and of `x`, in tuple order (start time, ties by end time, then by label) -/
-theorem insert_merge_label (t : ITier Int) (hwf : t.WF) (x : Iv Int) (hx : x.s < x.e) (hstr : pyStrip x.l = x.l)
+theorem insert_merge_label_stripped (t : ITier Int) (hwf : t.WF) (x : Iv Int) (hx : x.s < x.e) (hstr : pyStrip x.l = x.l)
     (hcol : C11.colliding t x ≠ []) :
     ∃ t' z, t.insertEntry x .merge = .ok t' ∧ z ∈ t'.es ∧
       z.l = pyJoin "-" ((sortIvs (C11.colliding t x ++ [x])).map (·.l)) ∧
@@ -236,11 +236,29 @@ theorem insert_merge_label (t : ITier Int) (hwf : t.WF) (x : Iv Int) (hx : x.s <
       (sortIvs (C11.colliding t x ++ [x])).Pairwise (fun a b => a.s ≤ b.s) ∧
       ∀ y, y ∈ t'.es ↔ (y ∈ t.es ∧ ¬ (y.s < x.e ∧ x.s < y.e)) ∨ y = z := by
   obtain ⟨_, _, hl, t', e, _, _, hm, _, _⟩ :=
-    C11.insert_merge t hwf x hx hstr hcol (C11.merged_label_stripped t hwf x hstr)
+    C11.insert_merge_stripped t hwf x hx hstr hcol (C11.merged_label_stripped t hwf x hstr)
   have hH := step_hull (C11.colliding t x) x
   refine ⟨t', C11.merged t x, e, (hm _).2 (Or.inr rfl), hl, fun m hm' => ⟨hH.lo_le m hm', hH.hi_ge m hm'⟩,
     hH.lo_mem, hH.hi_mem, sortIvs_pairwise _, ?_, hm⟩
   exact (sortIvs_pairwise _).imp (fun h => Iv.le_start h)
+
+/-- **label of a merge**: inserting an entry `x` (any label; `insertEntry` strips it: `C11.stripped x`) that collides
+with entries of a well-formed tier replaces them by ONE entry whose extent is the hull and whose label is the
+`-`-join of the labels of the colliding entries and of `x`'s stripped label, in tuple order (start time, ties by end
+time, then by label).  `hx` excludes only what `C11.insert_rejects` covers (a zero-length or reversed entry is
+refused). -/
+theorem insert_merge_label (t : ITier Int) (hwf : t.WF) (x : Iv Int) (hx : x.s < x.e)
+    (hcol : C11.colliding t x ≠ []) :
+    ∃ t' z, t.insertEntry x .merge = .ok t' ∧ z ∈ t'.es ∧
+      z.l = pyJoin "-" ((sortIvs (C11.colliding t x ++ [C11.stripped x])).map (·.l)) ∧
+      (∀ m ∈ C11.colliding t x ++ [C11.stripped x], z.s ≤ m.s ∧ m.e ≤ z.e) ∧
+      (∃ m ∈ C11.colliding t x ++ [C11.stripped x], m.s = z.s) ∧
+      (∃ m ∈ C11.colliding t x ++ [C11.stripped x], m.e = z.e) ∧
+      (sortIvs (C11.colliding t x ++ [C11.stripped x])).Pairwise (fun a b => Iv.le a b = true) ∧
+      (sortIvs (C11.colliding t x ++ [C11.stripped x])).Pairwise (fun a b => a.s ≤ b.s) ∧
+      ∀ y, y ∈ t'.es ↔ (y ∈ t.es ∧ ¬ (y.s < x.e ∧ x.s < y.e)) ∨ y = z := by
+  rw [C11.insertEntry_strip]
+  exact insert_merge_label_stripped t hwf (C11.stripped x) hx (C11.stripped_stripped x) hcol
 
 /-- one step of the union fold, with the exact entry list -/
 theorem union_step_es (acc : ITier Int) (hacc : acc.WF) (e : Iv Int) (he : e.s < e.e) (hes : pyStrip e.l = e.l) :
@@ -252,7 +270,7 @@ theorem union_step_es (acc : ITier Int) (hacc : acc.WF) (e : Iv Int) (he : e.s <
       intro iv hiv
       have := List.filter_eq_nil_iff.1 hcol iv hiv
       simp [ov] at this; omega
-    obtain ⟨acc', e1, w, n, hm, lo, hi⟩ := C11.insert_nocollision acc hacc e he hes .merge hfree
+    obtain ⟨acc', e1, w, n, hm, lo, hi⟩ := C11.insert_nocollision_stripped acc hacc e he hes .merge hfree
     refine ⟨acc', e1, w, n, ?_, lo, hi⟩
     apply eq_of_wf_mem _ _ w.pos w.disj hp' hd'
     intro y
@@ -271,7 +289,7 @@ theorem union_step_es (acc : ITier Int) (hacc : acc.WF) (e : Iv Int) (he : e.s <
       · left; exact h.1
       · right; exact h
   · obtain ⟨_, _, _, acc', e1, w, n, hm, lo, hi⟩ :=
-      C11.insert_merge acc hacc e he hes hcol (C11.merged_label_stripped acc hacc e hes)
+      C11.insert_merge_stripped acc hacc e he hes hcol (C11.merged_label_stripped acc hacc e hes)
     refine ⟨acc', e1, w, n, ?_, lo, hi⟩
     apply eq_of_wf_mem _ _ w.pos w.disj hp' hd'
     intro y
